@@ -28,9 +28,9 @@ Family == ndJsonDeserialize(IOEnv.FAMILY)
 Shard == atoi(IOEnv.SHARD)
 Shards == atoi(IOEnv.SHARDS)
 
-VARIABLES pi, S, inputs, insess, batch, epoch, nsets, nq, bad, hist, qres, done
+VARIABLES pi, S, inputs, insess, batch, epoch, nsets, nq, bad, hist, qres, snaps, done
 
-vars == <<pi, S, inputs, insess, batch, epoch, nsets, nq, bad, hist, qres, done>>
+vars == <<pi, S, inputs, insess, batch, epoch, nsets, nq, bad, hist, qres, snaps, done>>
 
 P == Family[pi].prog
 Nodes == 1..Len(P.nodes)
@@ -47,11 +47,21 @@ InitOps(p, i) ==
     IF i > Len(p.nodes) THEN <<>>
     ELSE (IF p.nodes[i].kind = "In" THEN <<[a |-> "set", n |-> i, v |-> 0]>> ELSE <<>>) \o InitOps(p, i + 1)
 
+(* the persisted mechanism state as Engine::verif_dump shows it (harness --dump 1): per node the age of   *)
+(* last_verified, the forward edge order, the callees behind dirty edges, the callers                  *)
+Snap(St) ==
+    [n \in DOMAIN St.lv |->
+        [age |-> IF St.lv[n] = None THEN -1 ELSE St.ts - St.lv[n],
+         fwd |-> St.fwd[n],
+         dirty |-> {d \in DOMAIN St.lv : <<n, d>> \in St.dirty},
+         back |-> St.back[n]]]
+
 Init ==
     /\ pi \in {i \in 1..Len(Family) : i % Shards = Shard}
     /\ LET p == Family[pi].prog
            ins == {n \in 1..Len(p.nodes) : p.nodes[n].kind = "In"}
        IN /\ S = SessCommit(SetAll(p, SessBegin(InitState(p)), ins), {})
+          /\ snaps = <<Snap(SessCommit(SetAll(p, SessBegin(InitState(p)), ins), {}))>>
           /\ hist = <<[a |-> "begin"]>> \o InitOps(p, 1) \o <<[a |-> "commit"]>>
     /\ inputs = [n \in 1..Len(Family[pi].prog.nodes) |-> 0]
     /\ insess = FALSE /\ batch = {} /\ epoch = 0 /\ nsets = 0 /\ nq = 0
@@ -67,6 +77,7 @@ Query(n) ==
        IN /\ S' = r.S
           /\ bad' = ((Judged /\ r.v # Want(n)) \/ r.S.err # "" \/ r.err)
           /\ qres' = Append(qres, [n |-> n, v |-> r.v, judged |-> Judged])
+          /\ snaps' = Append(snaps, Snap(r.S))
     /\ hist' = Append(hist, [a |-> "query", t |-> 0, n |-> n])
     /\ nq' = nq + 1
     /\ UNCHANGED <<pi, inputs, insess, batch, epoch, nsets, done>>
@@ -76,7 +87,7 @@ Begin ==
     /\ S' = SessBegin(S)
     /\ insess' = TRUE /\ batch' = {} /\ nsets' = 0
     /\ hist' = Append(hist, [a |-> "begin"])
-    /\ UNCHANGED <<pi, inputs, epoch, nq, bad, qres, done>>
+    /\ UNCHANGED <<pi, inputs, epoch, nq, bad, qres, snaps, done>>
 
 Set(n, v) ==
     /\ insess /\ nsets < MaxSets
@@ -86,13 +97,14 @@ Set(n, v) ==
     /\ inputs' = [inputs EXCEPT ![n] = v]
     /\ nsets' = nsets + 1
     /\ hist' = Append(hist, [a |-> "set", n |-> n, v |-> v])
-    /\ UNCHANGED <<pi, insess, epoch, nq, bad, qres, done>>
+    /\ UNCHANGED <<pi, insess, epoch, nq, bad, qres, snaps, done>>
 
 Commit ==
     /\ insess
     /\ S' = SessCommit(S, batch)
     /\ insess' = FALSE /\ epoch' = epoch + 1 /\ nq' = 0
     /\ hist' = Append(hist, [a |-> "commit"])
+    /\ snaps' = Append(snaps, Snap(SessCommit(S, batch)))
     /\ UNCHANGED <<pi, inputs, batch, nsets, bad, qres, done>>
 
 Terminal == ~insess /\ epoch = MaxEpochs /\ nq = MaxQueries
@@ -102,8 +114,8 @@ Emit ==
        \/ Emitting = "bad" /\ bad        \* counterexample generator (-continue not needed: `bad` is no invariant here)
     /\ ~done
     /\ done' = TRUE
-    /\ PrintT(ToJson([prog |-> P, actions |-> hist, queries |-> qres, runs |-> S.log, err |-> S.err]))
-    /\ UNCHANGED <<pi, S, inputs, insess, batch, epoch, nsets, nq, bad, hist, qres>>
+    /\ PrintT(ToJson([prog |-> P, actions |-> hist, queries |-> qres, runs |-> S.log, snaps |-> snaps, err |-> S.err]))
+    /\ UNCHANGED <<pi, S, inputs, insess, batch, epoch, nsets, nq, bad, hist, qres, snaps>>
 
 Next ==
     \/ \E n \in Nodes : Query(n)
